@@ -13,7 +13,8 @@ PROPERTY = "C01"
 RULE = ("AST-first random filter-free queries (0-4 child/descendant segments, 1-3 selectors incl. repeated/overlapping, "
         "hostile member names) rendered with random lexical spelling, applied through env.find and compile().finditer to "
         "documents planted from the query; oracle = literal RFC 9535 nodelist semantics. Non-trivial: expected nodelist "
-        "non-empty and (>=2 segments or >=2 selectors or a descendant segment); distinct by (AST, document).")
+        "non-empty and (>=2 segments or >=2 selectors or a descendant segment); distinct by (AST, document)."
+        " A quarter of the cases go through one compiled query that was first abandoned half-way on another document (find_one / partial finditer), and some through an environment instance whose nondeterministic flag was switched on and off again before the checked call.")
 ASSUMPTIONS = ["reference evaluator vf/oracle/sem.py transcribes RFC 9535 2.3/2.5 correctly (cross-validated against the repository's IETF example tables by ./selfcheck)",
                "documents are JSON values as json.load yields them (dict/list/str/int/float/bool/None, string keys)"]
 DECIDING_MONITORS = ["M-find"]
